@@ -31,7 +31,7 @@ def leaf_units():
 
 def serde_names(rt, names, pos):
     """rule -> list of names, from serde_derive's own conversion"""
-    cin, cout = os.path.join(vlib.BUILD, "dn.in"), os.path.join(vlib.BUILD, "dn.out")
+    cin, cout = os.path.join(vlib.TMP, "dn.in"), os.path.join(vlib.TMP, "dn.out")
     out = {"": list(names)}
     reqs = [(r, n) for r in RULES[1:] for n in names]
     with open(cin, "w") as f:
